@@ -23,6 +23,13 @@ PROPS = {
           'Non-trivial: fidelity with >=2 batches or a destination size differing from the batch size; every damage case.',
           variants={'quick': ['plain'], 'thorough': ['plain', 'checkptr']}, ulimit_v_kb=6000000,
           must_observe=['bit_flips', 'truncations', 'damage_detected_as_error', 'rows_roundtripped']),
+ 'C10': P('exploration',
+          'cases = (kind sort|merge|reduce, schema, key prefix, rows per stream, key distribution, spill target, canary rows, SpillBatchSize, '
+          'upstream chunk scripts incl. empty non-final reads for sort and n>0-with-EOF, destination-size script, optional injected upstream '
+          'error at call j, data seed): a fixed regression list (sizes 0,1,2,127,128,129,700; all-equal keys; empty streams) plus seeded random '
+          'cases. Oracle: sorted permutation / sorted union / per-key sum; injected errors must surface; no spiller-* directory in the private '
+          'TMPDIR after SortReader returns. Non-trivial: >=2 streams merged, or more rows than the canary (>=2 spills), or an error actually delivered.',
+          must_observe=['sorts_with_multiple_spills', 'injected_errors_propagated', 'rows_merged', 'spill_dir_checks'], leftover_is_violation=True),
 }
 
 META = {
@@ -38,4 +45,10 @@ META = {
          'is the written row sequence. Known, unrepairable-by-a-small-patch classes are listed in known_findings.json by signature.',
     note='Trusts encoding/gob, the row model and the destination adversary (readers.go). CRC32 collisions are ignored.',
     technique='fault-injection over the byte stream with a written-rows oracle; destination-frame canaries'),
+ 'C10': dict(
+    text='Exploration: the real sortio readers are run on generated streams with hostile spill/canary/batch sizes, upstream chunkings and '
+         'destination sizes; the oracle is a sort/merge/fold over the row model.',
+    note='Trusts the row model and comparison functions of universe.go and the chunk/destination adversaries; merge and reduce-merge '
+         'inputs never return (0,nil) (documented as end of input).',
+    technique='property-based runtime monitoring with reference sort/merge/fold oracle, temp-dir leak check'),
 }
